@@ -13,6 +13,8 @@ POOL = [
     {"svc": 0x1111, "inst": 1, "major": 2, "minor": 5, "egs": []},  # same service and instance id as the first, another version
     # a run of two options whose first equals the single option of the first instance
     {"svc": 0x3333, "inst": 4, "major": 1, "minor": 0, "egs": [], "opts": [["ep", 4, "10.0.0.1", 17, 30501], ["ep", 4, "10.0.0.1", 6, 30501]]},
+    # configured without a minor version (the library's default 0xFFFFFFFF is its concrete minor version on the wire)
+    {"svc": 0x4444, "inst": 1, "major": 1, "minor": 0xFFFFFFFF, "egs": []},
 ]
 HELPER = {"svc": 0x5555, "inst": 3, "major": 1, "minor": 2, "opts": [["ep", 4, "10.0.0.1", 17, 30500]]}
 INF_TTL = 0xFFFFFF
@@ -41,7 +43,7 @@ def find_spec(r, ins):
     # exact, wildcard, near miss, and the other fields' wildcard values (legal, concrete ids here)
     inst = r.choice([ins["inst"], 0xFFFF, ins["inst"], ins["inst"] + 1, 0x00FF, 0xFFFE])
     major = r.choice([ins["major"], 0xFF, ins["major"], ins["major"] + 1, 0xFE])
-    minor = r.choice([ins["minor"], 0xFFFFFFFF, ins["minor"], ins["minor"] + 1, 0xFF, 0xFFFF, 0xFFFFFFFE])
+    minor = r.choice([ins["minor"], 0xFFFFFFFF, ins["minor"], (ins["minor"] + 1) & 0xFFFFFFFF, 0xFF, 0xFFFF, 0xFFFFFFFE, 3])
     return ["find", svc, inst, major, minor, 3]
 
 
@@ -68,7 +70,7 @@ def gen_plan(pid, seed, idx, profile):
     r = rng(seed, pid, idx)
     timings = draw_timings(r)
     n = r.randint(1, 3)
-    insts = [dict(POOL[i]) for i in r.sample(range(5), n)]
+    insts = [dict(POOL[i]) for i in r.sample(range(len(POOL)), n)]
     if r.random() < 0.25 and n > 1:
         insts[-1]["timings"] = {"CYCLIC_OFFER_DELAY": 0 if timings["CYCLIC_OFFER_DELAY"] else 1}
     cfg = {"instances": insts, "timings": timings, "sock_flip": r.choice([0, 0.5, 1.0])}
@@ -87,6 +89,9 @@ def gen_plan(pid, seed, idx, profile):
         # a second SD stack lives in the same process (10.0.0.5): its own short-period offers and answers, own queues
         cfg["neighbour"] = {"timings": {"INITIAL_DELAY_MIN": 0.0, "INITIAL_DELAY_MAX": 0.1, "REPETITIONS_MAX": 2, "REPETITIONS_BASE_DELAY": 0.03, "CYCLIC_OFFER_DELAY": r.choice([0.11, 0.37]),
                                         "SEND_COLLECTION_TIMEOUT": timings["SEND_COLLECTION_TIMEOUT"], "SUBSCRIBE_REFRESH_INTERVAL": None}, "start_at": r.choice([0.0, 0.3])}
+        if r.random() < 0.5:
+            # ... and what it offers has the ids of one of the node's own instances, on another endpoint
+            cfg["neighbour"].update({"svc": [0x1111, 1, 1, 0], "opts": [["ep", 4, "10.0.0.5", 17, 30509]], "start_at": 0.0})
     use_helper = r.random() < profile.get("helper", 0)
     if use_helper:
         cfg["helper"] = HELPER
@@ -189,6 +194,12 @@ def gen_plan(pid, seed, idx, profile):
         elif kind == "queue":
             m = r.choice([1, 1, 2, 5, 17, 40, 60, 130])  # up to far more than fits a 1400-byte datagram
             dest = r.choice([None, 0, 1, 2, ["10.0.0.11", 30491], ["10.0.0.11", 30492]])  # incl. two more endpoints on peer 0's host
+            if r.random() < 0.08:
+                # first something for the group and for 70 other destinations (more than any table of "recent" peers holds)
+                ops.append({"k": "call", "t": t, "f": "queue_send", "a": [["offer", 0x6100, 1, 1, 0, 3], None]})
+                for d in range(70):
+                    ops.append({"k": "call", "t": t, "f": "queue_send", "a": [["suback", 0x6100, 1, 1, 1 + d % 5, 3, d % 16], [f"10.0.3.{1 + d}", 30490]]})
+                ops.append({"k": "call", "t": t, "f": "queue_send", "a": [["offer", 0x6101, 1, 1, 0, 3], None]})
             for q in range(m):
                 spec = ["offer", 0x6000 + r.randrange(3), q + 1, 1, q, r.choice([0, 3])] if r.random() < 0.7 else ["suback", 0x6000, 1, 1, q + 1, 3, q % 16]
                 if spec[0] == "offer" and m >= 40 and r.random() < 0.8:
